@@ -124,3 +124,9 @@ Definition run_case (bk : backend) (l : list op) (expected : list Z) : Z :=
 
 (* final outputs of all subscribers and the log, for diagnostics *)
 Definition final_obs (bk : backend) (l : list op) : list Z := do_ops bk h0 l.
+
+(* _stream_events parameter handling: expected = -400 for HTTP 400, -1000 for "now", else the cursor + 0 *)
+Definition cursor_code (r : option (option Z)) : list Z :=
+  match r with None => [0] | Some None => [1] | Some (Some k) => [2; k] end.
+Definition cursor_case (sse : bool) (a : aparam) (l : lparam) (expected : list Z) : Z :=
+  first_diff (cursor_code (stream_cursor sse a l)) expected 0.
